@@ -125,7 +125,10 @@ func (e *Engine) mergeContent(g smt.Term, o *Obj, a, b interface{}) interface{} 
 		return out
 	case KChan:
 		x, y := a.(*ChanContent), b.(*ChanContent)
-		nc := &ChanContent{Cap: x.Cap, Closed: c.Ite(g, x.Closed, y.Closed), Count: c.Ite(g, x.Count, y.Count)}
+		nc := &ChanContent{Cap: x.Cap, Closed: c.Ite(g, x.Closed, y.Closed), Count: c.Ite(g, x.Count, y.Count), Refill: x.Refill}
+		if y.Refill < nc.Refill {
+			nc.Refill = y.Refill
+		}
 		for i := range x.Slots {
 			nc.Slots = append(nc.Slots, e.Merge(g, x.Slots[i], y.Slots[i]))
 		}
